@@ -70,9 +70,9 @@ def selftest(res):
     res.info.setdefault("selftests", []).append({"name": "C18 undeclared.c", "diagnostics": len(msgs)})
 
 
-def r1_decls(res, tier):
+def r1_decls(res, tier, rule="R1.declared_before_use", components=None, min_units=180, tail=None):
     units, route = factsmod.compile_db()
-    chosen = [u for u in units]
+    chosen = [u for u in units if components is None or u["component"] in components]
     fl = factsmod.extract(chosen, extra_flags=("-UNDEBUG",), wflags=WFLAGS, use_cache=True)
     n = 0
     nd = 0
@@ -92,13 +92,13 @@ def r1_decls(res, tier):
             keys[k] = keys.get(k, 0) + 1
             if keys[k] > 1:
                 k += "#%d" % keys[k]
-            res.add("R1.declared_before_use", k, "%s:%s" % (rel, g.get("line")), False,
+            res.add(rule, k, "%s:%s" % (rel, g.get("line")), False,
                     g["msg"] + (" — the call is compiled as returning int: on a 64-bit host a returned pointer is truncated"
-                                if "implicit-function-declaration" in g["msg"] else ""))
-    res.add("R1.declared_before_use", "R1|all-units|clean", "src/", nd == 0,
+                                if "implicit-function-declaration" in g["msg"] else (tail or "")))
+    res.add(rule, "R1|all-units|clean", "src/", nd == 0,
             "%d translation units re-parsed with the build flags: no undeclared function, int/pointer or incompatible-pointer conversion, missing return" % n
             if nd == 0 else "%d diagnostics in %d units" % (nd, n))
-    res.floor("R1", "translation units re-parsed with diagnostics on", n, 180)
+    res.floor(rule, "translation units re-parsed with diagnostics on", n, min_units)
     res.info["units_with_diagnostics_enabled"] = n
 
 
